@@ -316,6 +316,9 @@ func main() {
 		rng := lib.NewRng(o.Seed)
 		descs = corpus()
 		nRand := o.Count(26, 400)
+		if o.Tier == "search" && o.N == 0 {
+			nRand = 120 // a search round after a mismatch: more runs than quick, bounded wall time
+		}
 		maxN := 6
 		if o.Tier != "quick" {
 			maxN = 9
